@@ -147,7 +147,17 @@ def check_value(acc, spec, how=None):
         if why:
             acc.failure("C10:slice_depends_on_earlier_slices", {"f": shown, "op": "width_aware_slice in shuffled order on one object", "a": a, "b": b}, "got %r (%s)" % (gc, why))
             break
-    # widths must not depend on history: measure, concatenate, measure again (the operand and both results)
+    # widths must not depend on history: measure, repeat (also a negative number of times), measure again
+    try:
+        for cnt in (-2, -1, 0, 1, 2):
+            r = f * cnt
+            want_w = total * max(0, cnt)
+            if r.width != want_w or sum(W[c] for c, _ in C.cells(r)) != want_w:
+                acc.failure("C10:width_after_repetition", {"f": shown, "op": "f * %d after f.width was read" % cnt}, "width %r, expected %r" % (r.width, want_w))
+                break
+        acc.transitions += 5
+    except Exception as ex:  # noqa
+        acc.failure("C10:width_after_repetition_raises:" + type(ex).__name__, {"f": shown}, repr(ex))
     try:
         for extra, ew in (("q", 1), ("Ｅ", 2), ("̀", 0)):
             g = f + extra
@@ -229,6 +239,52 @@ def shard_scale(args):
     return acc.export()
 
 
+def shard_columns(args):
+    """Every start column of long values in which a double-width character lies across every even (resp. odd) column: a slice
+    starting in the middle of a wide character at ANY column, in one run / runs of 7 / runs of 60."""
+    tier, seed, idx, nshards = args
+    acc = Acc(seed=seed, sample_stride=4999)
+    nwide = 450 if tier == "thorough" else 220
+    texts = ["Ｅ" * nwide, "a" + "漢" * nwide, ("aＥ" * nwide)[:nwide], "ab" + "Ｅ\u0300" * (nwide // 2)]
+    specs = []
+    for t in texts:
+        specs.append(((t, (("fg", 31),)),))
+        specs.append(tuple((t[i : i + 7], C.P3[(i // 7) % 3]) for i in range(0, len(t), 7)))
+        specs.append(tuple((t[i : i + 60], C.P3[(i // 60) % 3]) for i in range(0, len(t), 60)))
+    k = 0
+    for si, spec in enumerate(specs):
+        f = C.build(spec)
+        fc = C.spec_cells(spec)
+        total = sum(W[c] for c, _ in fc)
+        shown = {"value": {"characters": len(fc), "columns": total, "runs": len(spec), "first_runs": C.show_spec(spec[:2])}}
+        for a in range(0, total + 1):
+            k += 1
+            if k % nshards != idx:
+                continue
+            for b in (a, a + 1, a + 2, a + 9, total):
+                if b > total + 1:
+                    continue
+                case = dict(shown, op="width_aware_slice", a=a, b=b)
+                acc.case(True, key=("col", si, a, b), sample=case)
+                acc.transitions += 1
+                try:
+                    r = f.width_aware_slice(slice(a, b))
+                    gc = C.cells(r)
+                    rw = r.width
+                except Exception as ex:  # noqa
+                    acc.failure("C10:slice_raises:" + type(ex).__name__, case, repr(ex))
+                    continue
+                want_w = max(0, min(b, total) - min(a, total))
+                got_w = sum(W[c] for c, _ in gc)
+                if got_w != want_w or rw != want_w:
+                    acc.failure("C10:slice_width", case, "result of %d cells has width %r (reports %r), expected %r" % (len(gc), got_w, rw, want_w))
+                    continue
+                why = match(gc, expected_slice(fc, a, b))
+                if why:
+                    acc.failure("C10:slice_content:" + why, case, "got %r ..." % (gc[:8],))
+    return acc.export()
+
+
 def shard(args):
     tier, seed, idx, nshards = args
     acc = Acc(seed=seed, sample_stride=19997)
@@ -273,6 +329,8 @@ def run(ctx):
         rep.merge(d)
     for d in ctx.pmap(shard_scale, [(ctx.tier, ctx.seed, i, 32) for i in range(32)]):
         rep.merge(d, "scale_sweep")
+    for d in ctx.pmap(shard_columns, [(ctx.tier, ctx.seed, i, 32) for i in range(32)]):
+        rep.merge(d, "every_start_column_of_long_wide_values")
     rep.validated = rep.n
     rep.rule = (
         "every string over {a, fullwidth E, combining grave%s} of length <= %d, every cut into <= 3 runs with empty runs (P3); width, "
